@@ -120,6 +120,11 @@ def run(R):
                             # no other assignment to the variable between the test and the wait
                             ok2 = True
                             det2 += " = value loaded in the dominating loop test"
+                        elif tgt is None and same_value(strip_casts(side), cmpv, fn) and \
+                                is_atomic_node(F, fn, fn.expand_expr(strip_casts(side), use_block=b), STATUS, ("load",)):
+                            # `const int cur = status.load(); if (cur == done) break; futex(.., cur, ..)`
+                            ok2 = True
+                            det2 += " = single-definition local holding the load tested by the dominating guard"
             R.ob("C21.wait-value", fn, ev, ok2, det2, sitekey="futex-wait",
                  why="FUTEX_WAIT must compare against the value the loop just observed, else a notify between "
                  "the load and the wait is missed")
